@@ -98,6 +98,21 @@ class StdSem(Semantics):
             return None
         return path.tags.get((body.id, pl['l']))
 
+    def promoted_variant(self, body, op):
+        owner = op.get('powner') or body.id
+        pid = '%s::{promoted#%d}' % (owner, int(op['promoted']))
+        key = ('pv', pid)
+        if key not in self._exec:
+            tag = None
+            ct = body.raw.get('ctype') or 'Rlib'
+            for x in self.fb.bodies(body.crate, ct):
+                if x.id == pid:
+                    aggs = [st['rv'] for _, _, st in x.all_assigns() if st['rv']['k'] == 'agg' and st['rv'].get('ak') == 'adt']
+                    if len(aggs) == 1 and not aggs[0].get('ops') and self.variant_index(strip_generics(aggs[0]['adt']), aggs[0]['var']) is not None:
+                        tag = 'ev:%s::%s' % (strip_generics(aggs[0]['adt']), aggs[0]['var'])
+            self._exec[key] = tag
+        return self._exec[key]
+
     def variant_index(self, adt, var):
         key = ('vi', adt)
         if key not in self._exec:
@@ -200,6 +215,12 @@ class StdSem(Semantics):
         if t is not None:
             self._pending = (k, t)
             return
+        if rv['k'] == 'use' and isinstance(rv.get('op'), dict) and rv['op'].get('promoted') is not None:
+            # `&Enum::Variant` as a promoted constant (the right-hand side of `x == Enum::Variant`)
+            t = self.promoted_variant(body, rv['op'])
+            if t:
+                self._pending = (k, t)
+                return
         if rv['k'] in ('use', 'cast') and isinstance(rv.get('op'), dict) and 'fn' in rv['op']:
             self._pending = (k, 'fn:' + strip_generics(rv['op']['fn']))      # `let f = is_json;` / a function item coerced to a pointer
             return
@@ -255,6 +276,21 @@ class StdSem(Semantics):
                 return [('next', path)]
         is_opt = short.startswith('core::option::Option::')
         is_res = short.startswith('core::result::Result::')
+        if short in ('core::bool::{impl bool}::then', 'core::bool::{impl bool}::then_some') and len(term['args']) == 2:
+            cond = self.op_bool(interp, path, body, term['args'][0])
+            clear_dest()
+            if dk is None:
+                return [('next', path)]
+            succ = []
+            if cond is not True:
+                pn = path.fork() if cond is None else path
+                pn.tags[dk] = 'opt:None'
+                succ.append(('next', pn))
+            if cond is not False:
+                ps = path.fork() if cond is None else path
+                ps.tags[dk] = 'opt:Some'
+                succ.append(('next', ps))
+            return succ
         if short == 'core::ops::try_trait::Try::branch':
             clear_dest()
             if dk is not None and p0 is not None:
